@@ -115,6 +115,14 @@ impl Net {
 }
 
 
+/// Is any UDP socket of this netns connected to `remote`?
+fn udp_socket_connected_to(remote: SocketAddr) -> bool {
+    let SocketAddr::V4(v) = remote else { return false };
+    let o = v.ip().octets();
+    let r = format!("{:02X}{:02X}{:02X}{:02X}:{:04X}", o[3], o[2], o[1], o[0], v.port());
+    std::fs::read_to_string("/proc/net/udp").map(|t| t.lines().skip(1).any(|l| l.split_whitespace().nth(2) == Some(r.as_str()))).unwrap_or(false)
+}
+
 /// Is there a UDP socket with local address `local` connected to `remote` (this netns)? Read from
 /// /proc/net/udp. This identifies sozu's upstream socket of one flow exactly (our backend address is
 /// unique), whereas "is the port bound" also sees any other socket the kernel gave the same port since.
@@ -586,6 +594,11 @@ impl World {
                 // free again: judged by the admissions that follow)
                 self.c.tag("new-flow-aborted-open-failed");
                 let bad = bad_backend();
+                // connect() to the broadcast address fails for everybody: a socket connected to it would be a
+                // flow kept alive on an upstream socket that should not exist
+                if udp_socket_connected_to(bad) {
+                    self.c.fail("flow-kept-on-unopenable-backend", format!("a UDP socket connected to {bad} exists"));
+                }
                 self.c.tr(format!("rr bad {} {}", addr_str(&bad), now_ms));
                 self.c.tr("ra".into());
             }
@@ -1132,6 +1145,17 @@ impl World {
         self.bad_on = !self.bad_on;
         self.c.log.push(format!("unconnectable backend {}", if self.bad_on { "added" } else { "removed" }));
         self.c.tag("unconnectable-backend-toggled");
+        if self.bad_on {
+            // brand-new clients right away: some of them are balanced onto the backend that cannot be opened
+            for _ in 0..3 {
+                if self.spare_next >= self.net.nclients || self.c.tainted || !self.front_on {
+                    break;
+                }
+                let ci = self.spare_next;
+                self.spare_next += 1;
+                self.send(ci, 40, false);
+            }
+        }
     }
     /// every flow the monitor still holds is torn down by sozu now: its upstream socket must be closed
     fn all_flows_torn_down(&mut self, what: &str) {
